@@ -523,3 +523,106 @@ def coq_prop(o):
 
 def coq_prprog(prog):
     return "[" + "; ".join(coq_prop(o) for o in prog) + "]"
+
+
+# =====================================================================================
+#                           observer.OneShotObserverList
+# programs: ["w", wid] whenFired | ["f", r] fire(r) | ["t"] one reactor call
+# =====================================================================================
+def run_oso(prog):
+    fresh_queue()
+    o = obs.OneShotObserverList()
+    out = []        # model-comparable: [1,w,r] watcher w is told r (in firing order) / [2] AssertionError
+    viol = []
+    told = {}
+    state = dict(in_op=False)
+    for op in prog:
+        if op[0] == "t":
+            one_reactor_call()
+            continue
+        state["in_op"] = True
+        try:
+            if op[0] == "w":
+                d = o.whenFired()
+
+                def cb(r, w=op[1]):
+                    if state["in_op"]:
+                        viol.append(("oracle/observer-fired-synchronously", "watcher %d was told %r in the turn it subscribed / "
+                                     "the list fired" % (w, r)))
+                    told.setdefault(w, []).append(r)
+                    out.append([1, w, r])
+                d.addCallback(cb)
+            else:
+                try:
+                    o.fire(op[1])
+                except AssertionError:
+                    out.append([2])
+        finally:
+            state["in_op"] = False
+    for _ in range(50):
+        if not one_reactor_call()[0]:
+            break
+    fires = [op[1] for op in prog if op[0] == "f"]
+    for op in prog:
+        if op[0] == "w":
+            want = [fires[0]] if fires else []
+            if told.get(op[1], []) != want:
+                viol.append(("oracle/observer-list-result", "watcher %d was told %r, the list was fired with %r"
+                             % (op[1], told.get(op[1], []), fires[:1])))
+    if len(fires) > 1 and out.count([2]) != len(fires) - 1:
+        viol.append(("oracle/observer-list-refire", "fire() was called %d times and refused %d times" % (len(fires), out.count([2]))))
+    return dict(out=out, viol=viol)
+
+
+def observer_list_oracle(ctx):
+    import itertools, json
+    from harness import common
+    progs = []
+    for n in range(1, ctx.n(6, 8) + 1):
+        for wd in itertools.product("WFT", repeat=n):
+            k = [0]
+
+            def nxt():
+                k[0] += 1
+                return k[0]
+            progs.append([["w", nxt()] if ch == "W" else (["f", 50 + nxt()] if ch == "F" else ["t"]) for ch in wd])
+    res = []
+    with E.quiet():
+        for p in progs:
+            r = run_oso(p)
+            res.append(r)
+            for sig, text in r["viol"]:
+                ctx.fail(sig, "%s; program %s" % (text, json.dumps(p)), replay=dict(kind="oso", program=p))
+            ctx.case(["oso", p], nontrivial=any(e[0] == 1 for e in r["out"]))
+            ctx.hist("oso_told", min(sum(1 for e in r["out"] if e[0] == 1), 6))
+    # the model schedules eventual-sends in FIFO order; the order of [1,w,r] records after draining must be that order,
+    # with the AssertionErrors taken out (they happen at operation time)
+    for k in range(0, len(progs), 600):
+        chunk = progs[k:k + 600]
+        body = ("\nDefinition enc (o : oso_out) : list Z := match o with OEventually w r => [1; w; r]%Z | OAssert => [2]%Z end."
+                "\nDefinition cases : list (list oso_op) := " +
+                common.coq_list(chunk, lambda p: "[" + "; ".join(
+                    ("OWhenFired %d" % o[1]) if o[0] == "w" else ("OFire %d" % o[1]) for o in p if o[0] != "t") + "]") +
+                ".\nEval vm_compute in map (fun p => flat_map enc (snd (oso_run oso0 p))) cases.\n")
+        try:
+            (vals,) = ctx.coq_eval("C17_oso_%d" % (k // 600), body, requires=["Verif.gen.EventualGen", "Verif.lib.Promise"])
+        except common.CoqEvalError as e:
+            ctx.fail("correspondence-broken", "the observer-list model could not be evaluated: " + str(e)[-1500:], has_input=False)
+            return
+        for p, r, v in zip(chunk, res[k:k + 600], vals):
+            ctx.traces += 1
+            impl_told = [x for e in r["out"] if e[0] == 1 for x in e]
+            impl_as = sum(1 for e in r["out"] if e[0] == 2)
+            mv = list(v)
+            m_told, m_as, i = [], 0, 0
+            while i < len(mv):
+                if mv[i] == 1:
+                    m_told += mv[i:i + 3]
+                    i += 3
+                else:
+                    m_as += 1
+                    i += 1
+            if m_told != impl_told or m_as != impl_as:
+                ctx.fail("correspondence/oso", "observer-list model and implementation disagree on %s: model %r, implementation %r"
+                         % (json.dumps(p), mv, r["out"]), replay=dict(kind="oso", program=p, model=mv, impl=r["out"]), has_input=False)
+    ctx.extra["correspondence_oso_cases"] = len(progs)
